@@ -149,7 +149,16 @@ def t_precswitch(task):
                             if i == pos:
                                 mp.prec = newp
                             x = POINTS[j]
+                            cur = mp.prec
                             v = as_list(g(prob['x0'] + mp.mpf(x.numerator) / x.denominator), prob['vec'])
+                            acc.evals += 1
+                            if mp.prec != cur:
+                                acc.violation(['switch-prec', name, desc, str(x)], '%s: evaluating the solution at %s with mp.prec = %d left mp.prec = %d (history %s)' % (name, x, cur, mp.prec, desc),
+                                              prob=name, kind='prec-leak', at_x0=False)
+                                mp.prec = cur
+                            elif any(t._mpf_[3] > cur for t in v):
+                                acc.violation(['switch-bits', name, desc, str(x)], '%s: the value at %s returned under mp.prec = %d carries %d bits' % (name, x, cur, max(t._mpf_[3] for t in v)),
+                                              prob=name, kind='prec-leak', at_x0=False)
                             pe = min(mp.prec, 53)       # the interpolant was built for 53 bits: accuracy is bounded by the construction precision
                             check_value(acc, mp, name, desc, x, v, refs[53][x] if True else None, pe, None)
                             # the value must be the 53-bit-construction value rounded to the current precision: compare with a fresh
